@@ -16,7 +16,7 @@ import (
 // from a node that did not decode).
 
 func init() {
-	Register(&Rule{ID: "ERRFLOW", Props: []string{"C03", "C05", "C19", "C06", "C12", "C01", "C07", "C10"}, Min: 40,
+	Register(&Rule{ID: "ERRFLOW", Props: []string{"C03", "C05", "C19", "C06", "C12", "C01", "C07", "C10", "C09"}, Min: 40,
 		Doc: "every call in package mast that may return a non-nil error (a repository function with an error-carrying return, Persist.Load/Store, a user callback returning error) " +
 			"has its error result used, and no nil-error return is reachable on its non-nil edge (the error is returned, wrapped, or recorded); an error stashed by a closure in a captured variable (the predicate of sort.Search) must be looked at after the call that ran the closure; one tabled exception (the assertion validateNode, which has no error result).",
 		Run: runERRFLOW})
